@@ -222,6 +222,62 @@ def explainer_pair_fails(kind, dynamic, T, sd):
     return None
 
 
+def explainer_surfaces_fail(kind, dynamic, nfeat, model_kind, offset, T, sd):
+    """"All results are finite whenever all inputs are": a real explainer driven by finite binary64 observations, model outputs and
+    losses; after every call EVERY read-out it offers (importance values, variances, both normalised views, confidence bounds, and
+    the SAGE losses) is queried and has to be a finite number. Shapes include the degenerate ones a stream starts with: a single
+    explained feature, and a model that does not use its inputs (all contributions equal)."""
+    import random as pyrandom
+    import warnings
+    from harness import rng as hrng
+    from ixai.explainer import IncrementalPFI, IncrementalSage
+    from ixai.storage import GeometricReservoirStorage
+    from ixai.imputer import MarginalImputer
+    names = ["a", "b", "c"][:nfeat]
+    r = pyrandom.Random(sd)
+    w = [r.randint(-8, 8) / 4 for _ in range(4)]
+
+    def model(x):
+        if model_kind == "constant":
+            return {"output": w[3]}
+        return {"output": sum(w[i] * x[f] for i, f in enumerate(names)) + w[3]}
+
+    def loss(y, p):
+        return (p["output"] - y) * (p["output"] - y)
+    with warnings.catch_warnings():
+        warnings.simplefilter("ignore")
+        d = hrng.Scripted(pyrandom.Random(sd + 1), real_fn=lambda g: g.random())
+        with d.installed():
+            st = GeometricReservoirStorage(size=4, store_targets=False, constant_probability=1.0)
+            cls = IncrementalPFI if kind == "pfi" else IncrementalSage
+            ex = cls(model, loss, names, storage=st, imputer=MarginalImputer(model, "joint", st), n_inner_samples=2,
+                     dynamic_setting=dynamic, smoothing_alpha=0.125)
+            for t in range(T):
+                x = {f: r.randint(-64, 64) / 16 + offset for f in names}
+                y = r.randint(-64, 64) / 16 + offset * w[0]
+                ex.explain_one(x, y)
+                views = [("importance_values", lambda: ex.importance_values), ("variances", lambda: ex.variances),
+                         ("get_normalized_importance_values('sum')", lambda: ex.get_normalized_importance_values("sum")),
+                         ("get_normalized_importance_values('delta')", lambda: ex.get_normalized_importance_values("delta")),
+                         ("get_confidence_bound(0.05)", lambda: ex.get_confidence_bound(0.05) if ex.variances else {})]
+                if kind == "sage":
+                    views += [("marginal_loss", lambda: {"": ex.marginal_loss}), ("model_loss", lambda: {"": ex.model_loss}),
+                              ("explained_loss", lambda: {"": ex.explained_loss})]
+                for what, get in views:
+                    try:
+                        got = get()
+                    except ArithmeticError as exn:
+                        return f"after {t + 1} calls on finite inputs {what} has no result: {core.err_kind(exn)}: {exn}"
+                    for k, v in got.items():
+                        try:
+                            fin = math.isfinite(v)
+                        except TypeError:
+                            fin = False
+                        if not fin:
+                            return f"after {t + 1} calls on finite inputs {what}[{k!r}] = {v!r}"
+    return None
+
+
 def run(tier="quick", seed=0, replay=None):
     chk = core.Check("C20", tier, seed, "proof")
     chk.rule = ("float streams of 8 shapes (gaussian, large offset up to 1e9*spread, sorted, alternating, constant-then-jump, "
@@ -305,6 +361,21 @@ def run(tier="quick", seed=0, replay=None):
             f = f"raised {core.err_kind(exn)}: {exn}"
         if f:
             chk.violation("explainer-float", f"{kind} (dynamic={dynamic}, seed {sd}): {f}", {"tracker": "explainer", "kind": kind, "dynamic": dynamic, "calls": T, "seed": sd})
+    shapes = [(k, dyn, nf, mk, off) for k in ("pfi", "sage") for dyn in (True, False) for nf in (1, 2, 3) for mk in ("linear", "constant")
+              for off in (0.0, 1e6)]
+    for k, dyn, nf, mk, off in shapes:
+        T = 12 if quick else 120
+        sd = rng.randrange(10 ** 6)
+        dsc = {"oracle": "explainer-results-finite", "kind": k, "dynamic": dyn, "features": nf, "model": mk, "offset": off, "calls": T, "seed": sd}
+        chk.case(dsc, nontrivial=True, sample=False)
+        chk.stat(f"finite-surfaces:{mk}:features={nf}")
+        try:
+            f = explainer_surfaces_fail(k, dyn, nf, mk, off, T, sd)
+        except Exception as exn:
+            f = f"raised {core.err_kind(exn)}: {exn}"
+        if f:
+            chk.violation("explainer-nonfinite", f"{k} (dynamic={dyn}, {nf} feature(s), {mk} model, offset {off:g}, seed {sd}): {f}",
+                          dict(dsc, tracker="explainer-surfaces"))
     for alpha, T in ((0.125, 260), (0.5, 60)) if quick else ((0.125, 300), (0.5, 80), (0.015625, 150), (0.02, 60)):
         chk.case({"oracle": "normalised-marginal-prediction", "alpha": alpha, "calls": T}, nontrivial=True, sample=False)
         try:
@@ -330,6 +401,13 @@ def do_replay(chk, path):
     r = json.load(open(path))
     rp = r.get("replay") or {}
     if not rp:
+        print(json.dumps(r, indent=1))
+        return 1
+    if rp.get("tracker") == "explainer-surfaces":
+        f = explainer_surfaces_fail(rp["kind"], rp["dynamic"], rp["features"], rp["model"], rp["offset"], rp["calls"], rp["seed"])
+        print(f"replay {path}: {'FAILS: ' + f if f else 'passes on the current tree'}")
+        return 1 if f else 0
+    if "vs_bits" not in rp:
         print(json.dumps(r, indent=1))
         return 1
     vs = [struct.unpack("<d", struct.pack("<Q", int(b)))[0] for b in rp["vs_bits"]]
